@@ -417,6 +417,51 @@ def class_vs_procedural(rec, rng, n):
                           case={"kind": "style", "design": d})
 
 
+def class_body_probes(rec):
+    """Class bodies whose values already carry a (different) name: `@h.module` / `@h.bundle` file every value under its class-body
+    key, exactly as the equivalent sequence of attribute assignments does."""
+    import hdl21 as h
+
+    L = lib()
+
+    def bodies(on):
+        yield "pre-named signal", [("in_", lambda: h.Input(name="in"))]
+        yield "name of a later key", [("a", lambda: h.Signal(name="b")), ("b", lambda: h.Signal(width=2))]
+        yield "name of an earlier key", [("a", lambda: h.Signal(width=3)), ("b", lambda: h.Signal(name="a"))]
+        yield "pre-named bundle instance", [("s", lambda: h.BundleInstance(name="t", of=L["B"])), ("t", lambda: h.Signal())]
+        yield "swapped names", [("a", lambda: h.Signal(name="b", width=2)), ("b", lambda: h.Signal(name="a", width=3))]
+        if on == "module":
+            yield "pre-named instance", [("sig", lambda: h.Signal()), ("i", lambda: h.Instance(name="j", of=L["E"]())), ("j", lambda: h.Signal(width=2))]
+            yield "pre-named port", [("p", lambda: h.Port(name="q")), ("q", lambda: h.Output(width=2))]
+
+    def describe(obj):
+        g = object.__getattribute__
+        ns = g(obj, "namespace")
+        return [(k, type(v).__name__, v.name, v.width if isinstance(v, h.Signal) else None) for k, v in ns.items()]
+
+    for on in ("module", "bundle"):
+        for label, body in bodies(on):
+            rec.count("style.class-bodies")
+            case = {"kind": "class-body", "on": on, "body": label}
+            rec.case(key=f"class-body:{on}:{label}", nontrivial=True, sample=case if label == "swapped names" else None)
+            try:
+                cls = type(f"CB{next(_ctr)}", (), {k: mk() for k, mk in body})
+                a = h.module(cls) if on == "module" else h.bundle(cls)
+                da = describe(a)
+            except Exception as e:
+                da = ("raised", type(e).__name__)
+            try:
+                b = h.Module(name="P") if on == "module" else h.Bundle(name="P")
+                for k, mk in body:
+                    setattr(b, k, mk())
+                db = describe(b)
+            except Exception as e:
+                db = ("raised", type(e).__name__)
+            if da != db:
+                rec.violation("class-style-differs", f"{on} class body '{label}': the decorator yields {da}, the same assignments made one by one "
+                                                     f"yield {db}", case=case, on=on)
+
+
 def run(ctx, rec):
     attach(rec)
     rng = ctx.rng("c18")
@@ -460,6 +505,7 @@ def run(ctx, rec):
     if ctx.shard == 0:
         reject_probes(rec)
         class_vs_procedural(rec, rng, 150 if ctx.quick else 600)
+        class_body_probes(rec)
     rec.exhaustive = ctx.nshards == 1
     _state["rec"] = None
 
